@@ -579,6 +579,31 @@ def rule_OW5(ctx, mod, E):
     ctx.check('C12.OW5.copy', 'Simulation.from_dict solver_opts', ok,
               'from_dict mutates the solver_opts dict of its input (shared '
               'with the original simulation)', ctx.where(mod, fd))
+    # from_dict works on its own (shallow) copy of the dictionary: popping
+    # from the caller's dictionary would empty it for the next from_dict
+    p0 = au.params(fd)[1]
+    rebind = [n for n in fd.body if isinstance(n, ast.Assign) and
+              ast.unparse(n.targets[0]) == p0 and (
+                  (isinstance(n.value, ast.DictComp) and ast.unparse(
+                      n.value.generators[0].iter) == f'{p0}.items()') or
+                  ast.unparse(n.value) in (f'dict({p0})', f'{p0}.copy()',
+                                           f'{{**{p0}}}'))]
+    first = min((n.lineno for n in rebind), default=None)
+    muts_ = [c for c in ast.walk(fd) if isinstance(c, ast.Call) and
+             isinstance(c.func, ast.Attribute) and c.func.attr in (
+                 'pop', 'popitem', 'clear', 'update', 'setdefault') and
+             ast.unparse(c.func.value) == p0]
+    muts_ += [n for n in ast.walk(fd) if isinstance(n, (ast.Assign,
+                                                        ast.Delete)) and any(
+        isinstance(t, ast.Subscript) and ast.unparse(t.value) == p0
+        for t in n.targets)]
+    okc = all(first is not None and first < m_.lineno for m_ in muts_)
+    ctx.check('C12.OW5.copy', "Simulation.from_dict leaves the caller's "
+              'dictionary alone', okc, f'from_dict pops from / writes into '
+              f'its input `{p0}` itself (no own copy first): the dictionary '
+              'returned by to_dict is emptied by the first from_dict, a '
+              'second simulation built from it silently falls back to the '
+              'defaults', ctx.where(mod, muts_[0] if muts_ else fd))
     # survey / model copied via their own from_dict
     for k, c in (('survey', 'surveys.Survey.from_dict'),
                  ('model', 'models.Model.from_dict')):
